@@ -65,15 +65,24 @@ def servedApiObject (T t0 : Nat) : Exchange → Option Field
     then some (shownStruct body) else none
   | _ => none
 
-/-- the secondary value never falsifies the record: it is absent or what the target served -/
-def secondOk (served : Option Field) (f : Field) : Bool :=
-  f == .null || served == some f
+/-- the JSON object the target itself SENT first in answer to a request, whatever follows it and whatever
+    the status: the weakest reading of "a secondary request never falsifies the record" — a secondary
+    value that is shown was sent by the probed target (not by another endpoint, not invented) -/
+def sentObject (struct : Bool) : Exchange → Option Field
+  | .resp _ status _ body :: _ =>
+    if hasBody status && (isJsonObject body.cls || body.cls == .objectTrailing)
+    then some (if struct then shownStruct body else shown body) else none
+  | _ => none
+
+/-- the secondary value never falsifies the record: it is absent or what the target sent -/
+def secondOk (sent : Option Field) (f : Field) : Bool :=
+  f == .null || sent == some f
 
 def elasticHolds (scheme ip : String) (T : Nat) (x1 x2 : Exchange) (obs : ScanOut) (ms : Nat) : Bool :=
   match obs, servedObject T 0 x1 with
   | .err, none => ms ≤ T + slack
   | .record r, some f =>
-    r.proto == scheme && r.host == ip ++ ":P" && r.info == f && secondOk (servedObject T 0 x2) r.second
+    r.proto == scheme && r.host == ip ++ ":P" && r.info == f && secondOk (sentObject false x2) r.second
       && ms ≤ 2 * T + slack
   | _, _ => false
 
@@ -94,10 +103,8 @@ def dockerHolds (scheme ip : String) (T : Nat) (ping info ver : Exchange) (obs :
   match obs, servedApiObject T t0 info with
   | .err, none => ms ≤ T + slack
   | .record r, some f =>
-    -- the version call starts when /info has been served; only an upper bound on its start is used:
-    -- a version shown must be the one the target served
     r.proto == scheme && r.host == "tcp://" ++ ip ++ ":P" && r.info == f
-      && secondOk (servedApiObject T 0 ver) r.second
+      && secondOk (sentObject true ver) r.second
       && ms ≤ T + slack
   | _, _ => false
 
